@@ -194,6 +194,41 @@ def c11_5(ctx):
                         % norm(e.value)[:60])
             else:
                 ctx.undecided("accepted-only-after-case-test", ctx.where(bd, e.node), "bech32_decode accepts under `%s`, which does not show the case test" % str(e.cond)[:100])
+    # (g) a base-256 form built with int.to_bytes has NO byte for the value zero (the leading-zero prefix carries all of an
+    #     all-zero payload): a size forced to at least one byte gives `1` * n one byte too many
+    for nm in ("a2b_base58", "b2a_base58"):
+        g = ctx.func(B58, nm)
+        node = sym.expanded(ctx, g)
+        defs_ = df.single_defs(node)
+        for c in ast.walk(node):
+            if isinstance(c, ast.Call) and isinstance(c.func, ast.Attribute) and c.func.attr == "to_bytes" and c.args:
+                size = df.expand(c.args[0], defs_)
+                forced = (isinstance(size, ast.Call) and norm(size.func) == "max" and any(df.const_int(a) == 1 for a in size.args)) or \
+                         (isinstance(size, ast.BoolOp) and isinstance(size.op, ast.Or) and df.const_int(size.values[-1]) == 1)
+                ctx.check(not forced, "no-byte-for-zero:%s" % nm, ctx.where(g, c), "%s sizes the base-256 form as `%s`: at least one byte even for the value 0, so an empty or all-zero payload (`1` * n) decodes with one zero byte too many" % (nm, norm(size)[:60]),
+                          sample={"function": nm, "size": norm(size)[:60]})
+        ctx.ok("no-byte-for-zero-scanned:%s" % nm, nontrivial=False)
+    # (f) strict regrouping (pad=False) refuses a left-over of a whole input group or more: exactly `bits >= frombits`, as an interval
+    cb = ctx.func(BECH, "convertbits")
+    cps = cb.params()
+    if len(cps) >= 4:
+        frm, padp = cps[1], cps[3]
+        acc_names = [n.target.id for n in ast.walk(sym.expanded(ctx, cb)) if isinstance(n, ast.AugAssign) and isinstance(n.op, ast.Add) and isinstance(n.target, ast.Name) and isinstance(n.value, ast.Name) and n.value.id == frm]
+        if not acc_names:
+            ctx.undecided("strict-leftover-bits", ctx.where(cb), "convertbits: no counter of pending bits (`bits += frombits`) found")
+        else:
+            bname = acc_names[0]
+            wc = sym.int_walk(ctx, cb, {bname}, {frm}, keep={bname})
+            nones = [e for e in wc.exits if _none_ret(e) and e.cond not in (True, False) and gi.involves_subject(e.cond)]
+            if not nones:
+                ctx.undecided("strict-leftover-bits", ctx.where(cb), "convertbits: no refusing exit decides on the pending bit count")
+            else:
+                fr_ = gi.f_or(*[e.cond for e in nones])
+                strict_ = {"truthy(%s)" % padp: False}
+                s_ = sym.must_set(fr_, U, E, assume=strict_)
+                want_ = iv(("s", 0), None)
+                ctx.check(s_ == want_, "strict-leftover-bits", ctx.where(cb), "convertbits(pad=False) refuses pending bit counts %s on their own; BIP173: a left-over of `frombits` bits or more (a whole superfluous group), i.e. exactly %s" % (s_.fmt("frombits"), want_.fmt("frombits")),
+                          sample={"subject": "pending bits after the last group", "refused": s_.fmt("frombits")})
     # (e) the encoder refuses no triple the decoder accepts: what it refuses on the program length / version alone lies outside
     #     2..40 / 0..16
     en = ctx.func(BECH, "encode")
